@@ -59,3 +59,16 @@ Proof. vm_compute. auto. Qed.
 Example s_two_retry : snd (step Fixed s_two (RunT 0)) = [OTx 0 0 0 100] /\
   map t_status (timers (fst (step Fixed s_two (RunT 0)))) = [Done; Armed; Armed].
 Proof. vm_compute. auto. Qed.
+
+(* ---- order of the answer check and the dispatch to handlers (seeded/C10-e): the reply (144,1,9) to request 0
+   arrives and its handler sends request 1 with the same pattern.  Right order (the code): check, then handler —
+   request 1 keeps its timer and is retried.  Wrong order: the reply to request 0 cancels the timer of request 1. *)
+Definition ev_handler_right : list event :=
+  [Open true; Send 0 144 [5] [1] 100; Adv 30; Recv 144 [1; 9]; Send 1 144 [6] [1] 100; Adv 100; Expire 1; RunT 1].
+Definition ev_handler_wrong : list event :=
+  [Open true; Send 0 144 [5] [1] 100; Adv 30; Send 1 144 [6] [1] 100; Recv 144 [1; 9]; Adv 100; Expire 1; RunT 1].
+Example handler_request_is_retried : txs (run Fixed init ev_handler_right) = [(0, 0, 0, 0); (0, 1, 0, 30); (0, 1, 0, 130)].
+Proof. vm_compute. reflexivity. Qed.
+Example late_answer_check_cancels_follow_up : txs (run Fixed init ev_handler_wrong) = [(0, 0, 0, 0); (0, 1, 0, 30)] /\
+  pats (fst (run Fixed init ev_handler_wrong)) = [].
+Proof. vm_compute. auto. Qed.
